@@ -88,6 +88,12 @@ class C05(Prop):
         r = env.rng("C05", case["seed"], i)
         log = self.rig.log
         log.clear()
+        if not hasattr(self, "keep"):
+            from ..monitors.keepsake import Keep
+
+            self.keep = Keep(limit=240)
+        # devices delivered in earlier batches were kept by their consumer: they still say what their datagrams said
+        self.keep.verify(acc, "delivered-device-changed-later", "the time later broadcasts had been handled")
         zone = env.ZONES[env.sig("zone", i) % len(env.ZONES)]
         clock.set_zone(zone)     # nothing in a broadcast depends on the host zone: durations are durations
         if env.sig("own", i) % 40 == 7:
@@ -223,6 +229,9 @@ class C05(Prop):
                 for field, got, want in rb.compare_device(dev, d):
                     acc.violation(f"field-wrong:{cat}:{field}", f"{d['model']} {d['state']} on port {port}, host zone {zone}: {field} = {got!r}, want {want!r}",
                                   {"desc": d, "datagram": data.hex(), "field": field, "got": str(got), "want": str(want), "zone": zone})
+        if len(delivered) == len(sent):
+            for dev_, (d_, _) in list(zip(delivered, sent))[:: max(1, len(sent) // 6)]:
+                self.keep.add(dev_, f"{d_['model']} device object delivered in batch {i}")
         others = [o for o in others if not (o[0] == "loop_exc" and ("CallbackBoom" in o[1] or "UnicodeDecodeError" in o[1] or "codec can't decode" in o[1]))
                   and not (o[0] == "warning" and "unknown" in o[1].lower())]
         if others:
@@ -232,6 +241,7 @@ class C05(Prop):
             # the same device broadcasts the very same bytes again: what is delivered is what the datagram says
             d_edit, data_edit = sent[-1]
             victim = delivered[-1]
+            self.keep.forget(victim)
             before_n = len([1 for k2, p2 in log.events if k2 == "device" and not udp.is_sentinel(p2)])
             try:
                 victim.name = "renamed by the consumer"
